@@ -1,7 +1,9 @@
 //! C03: ids of the real `BPETokenizer::tokenize(s, true)` against the model
 //! (repaired heap loop) and the canonical reference (`check_C03`).
 //! input  = (tbl text)   tbl: byte strings in merge-id order, text: code points
-//! output = ((id ...))   or () when tokenize / the constructor returns an error
+//! output = ((id ...) fb lv)   or () when tokenize / the constructor returns an error;
+//!          fb = the bytes of the merge file the crate's `save` wrote and the tokenizer was built from,
+//!          lv = ((id key) ...) = the real `MergeOps::load` of that file (the model decodes fb itself)
 #[path = "../bpe_common.rs"]
 mod bpe;
 use bpe::*;
@@ -15,17 +17,17 @@ struct C03 {
     cur: Option<(Table, Vec<&'static str>)>,
     left: usize,
     /// tokenizer cache for `run`
-    cache: Option<(Table, BPETokenizer)>,
+    cache: Option<(Table, BPETokenizer, MergeFile)>,
 }
 
 impl C03 {
-    fn tokenizer(&mut self, table: &Table) -> Option<&BPETokenizer> {
-        let hit = matches!(&self.cache, Some((t, _)) if t == table);
+    fn tokenizer(&mut self, table: &Table) -> Option<(&BPETokenizer, &MergeFile)> {
+        let hit = matches!(&self.cache, Some((t, _, _)) if t == table);
         if !hit {
-            let tok = build_tokenizer(DIR, table, None, plain_special(), false).ok()?;
-            self.cache = Some((table.clone(), tok));
+            let (tok, mf) = build_tokenizer_file(DIR, table, None, None, plain_special(), false);
+            self.cache = Some((table.clone(), tok.ok()?, mf));
         }
-        self.cache.as_ref().map(|c| &c.1)
+        self.cache.as_ref().map(|c| (&c.1, &c.2))
     }
 }
 
@@ -100,10 +102,12 @@ impl Prop for C03 {
         }
         let table = val_table(&l[0])?;
         let text = val_text(&l[1])?;
-        let tok = self.tokenizer(&table)?;
+        let (tok, mf) = self.tokenizer(&table)?;
         let t2 = text.clone();
-        let out = guard(std::panic::AssertUnwindSafe(|| {
-            Val::opt(tok.tokenize(&t2, true).ok(), |t| Val::list(t.token_ids.iter(), |i| Val::I(*i as i64)))
+        let (fb, lv) = (mf.bytes_val(), mf.loaded_val());
+        let out = guard(std::panic::AssertUnwindSafe(|| match tok.tokenize(&t2, true) {
+            Ok(t) => Val::L(vec![Val::list(t.token_ids.iter(), |i| Val::I(*i as i64)), fb, lv]),
+            Err(_) => Val::L(vec![]),
         }));
         let (nwords, merges, stale) = text_stats(&table, &text);
         let mut tags = vec![];
